@@ -175,6 +175,7 @@ impl BitFont {
     // const PSF1_MAXMODE: u8 = 0x05;
 
     fn load_psf1(font_name: impl Into<String>, data: &[u8]) -> Self {
+        // caller checked that the 4 byte header is there
         let mode = data[2];
         let charsize = data[3];
         let length = if mode & BitFont::PSF1_MODE512 == BitFont::PSF1_MODE512 { 512 } else { 256 };
@@ -193,7 +194,7 @@ impl BitFont {
     }
 
     fn load_plain_font(font_name: impl Into<String>, data: &[u8]) -> EngineResult<Self> {
-        if data.len() % 256 != 0 {
+        if data.is_empty() || data.len() % 256 != 0 {
             return Err(FontError::UnknownFontFormat(data.len()).into());
         }
         let char_height = data.len() / 256;
@@ -221,6 +222,9 @@ impl BitFont {
     //const PSF2_STARTSEQ: u8 = 0xFE;
 
     fn load_psf2(font_name: impl Into<String>, data: &[u8]) -> EngineResult<Self> {
+        if data.len() < 32 {
+            return Err(FontError::LengthMismatch(data.len(), 32).into());
+        }
         let version = u32::from_le_bytes(data[4..8].try_into().unwrap());
         if version > BitFont::PSF2_MAXVERSION {
             return Err(FontError::UnsupportedVersion(version).into());
@@ -229,8 +233,9 @@ impl BitFont {
         // let flags = u32::from_le_bytes(data[12..16].try_into().unwrap());
         let length = u32::from_le_bytes(data[16..20].try_into().unwrap()) as i32;
         let charsize = u32::from_le_bytes(data[20..24].try_into().unwrap()) as i32;
-        if length * charsize + headersize as i32 != data.len() as i32 {
-            return Err(FontError::LengthMismatch(data.len(), (length * charsize) as usize + headersize).into());
+        let expected_len = (length as i64) * (charsize as i64) + headersize as i64;
+        if length < 0 || charsize < 0 || headersize < 32 || expected_len != data.len() as i64 {
+            return Err(FontError::LengthMismatch(data.len(), expected_len as usize).into());
         }
         let height = u32::from_le_bytes(data[24..28].try_into().unwrap()) as usize;
         let width = u32::from_le_bytes(data[28..32].try_into().unwrap()) as usize;
@@ -287,14 +292,16 @@ impl BitFont {
     ///
     /// This function will return an error if .
     pub fn from_bytes(font_name: impl Into<String>, data: &[u8]) -> EngineResult<Self> {
-        let magic16 = u16::from_le_bytes(data[0..2].try_into().unwrap());
-        if magic16 == BitFont::PSF1_MAGIC {
-            return Ok(BitFont::load_psf1(font_name, data));
-        }
+        if data.len() >= 4 {
+            let magic16 = u16::from_le_bytes(data[0..2].try_into().unwrap());
+            if magic16 == BitFont::PSF1_MAGIC {
+                return Ok(BitFont::load_psf1(font_name, data));
+            }
 
-        let magic32 = u32::from_le_bytes(data[0..4].try_into().unwrap());
-        if magic32 == BitFont::PSF2_MAGIC {
-            return BitFont::load_psf2(font_name, data);
+            let magic32 = u32::from_le_bytes(data[0..4].try_into().unwrap());
+            if magic32 == BitFont::PSF2_MAGIC {
+                return BitFont::load_psf2(font_name, data);
+            }
         }
 
         BitFont::load_plain_font(font_name, data)
@@ -361,17 +368,17 @@ macro_rules! fonts {
         ];
     };
 }
-fn glyphs_from_u8_data(font_height: usize, mut data: &[u8]) -> HashMap<char, Glyph> {
+fn glyphs_from_u8_data(font_height: usize, data: &[u8]) -> HashMap<char, Glyph> {
     let mut glyphs = HashMap::new();
-    let mut ch = 0;
-    while !data.is_empty() {
-        let glyph = Glyph {
-            data: data[..font_height].into(),
-        };
-        glyphs.insert(unsafe { char::from_u32_unchecked(ch as u32) }, glyph);
-
-        data = &data[font_height..];
-        ch += 1;
+    if font_height == 0 {
+        return glyphs;
+    }
+    // an incomplete glyph at the end of the data is dropped
+    for (ch, glyph_data) in data.chunks_exact(font_height).enumerate() {
+        // glyph numbers that are no unicode scalar values can't be addressed by a char
+        if let Some(ch) = char::from_u32(ch as u32) {
+            glyphs.insert(ch, Glyph { data: glyph_data.into() });
+        }
     }
     glyphs
 }
